@@ -439,7 +439,9 @@ Definition wf_wperiod (nx ny : Z) (p : wperiod) : bool :=
              (wp_levels p).
 Definition wf_winput (w : winput) : bool :=
   len_is 2 (wi_grid w) && len_is 93 (wi_fixed w) && len_is 2 (wi_vsys2 w)
-  && (0 <=? wi_nx w) && (wi_nx w <=? 999) && (0 <=? wi_ny w) && (wi_ny w <=? 999)
-  (* the writer writes NX, NY with '%3d' and copies the grid id: grids below 1000 x 1000 only *)
-  && (nth 0 (wi_grid w) 0 <=? 64) && (nth 1 (wi_grid w) 0 <=? 64)
+  && (0 <=? wi_nx w) && (wi_nx w <=? 26999) && (0 <=? wi_ny w) && (wi_ny w <=? 26999)
+  (* the writer writes NX, NY modulo 1000 ('%3d' % (n % 1000), /repo 8d118b4) and copies the grid id
+     of the input file, which must carry the thousands letters of its own sizes *)
+  && (grid_thousands (nth 0 (wi_grid w) 0) =? 1000 * (wi_nx w / 1000))
+  && (grid_thousands (nth 1 (wi_grid w) 0) =? 1000 * (wi_ny w / 1000))
   && forallb (wf_wperiod (wi_nx w) (wi_ny w)) (wi_periods w).
